@@ -7,6 +7,10 @@ Local Open Scope list_scope.
 
 Inductive cmpkind := CmpVal | CmpDeep | CmpSlices | CmpDerived.
 
+(* the condition under which createResources constructs a component, without its `p.x == nil` conjunct:
+   GAtom f "" = the boolean (or derived boolean) field f is true; GAtom f k = field f equals the constant k *)
+Inductive gexpr := GTrue | GAtom (f t : string) | GAnd (a b : gexpr) | GOr (a b : gexpr) | GNot (a : gexpr).
+
 Record row := {
   comp : string;                       (* field of Core holding the component *)
   guard : list string;                 (* configuration fields its creation is conditioned on *)
@@ -15,6 +19,9 @@ Record row := {
   cmps : list (string * cmpkind);      (* comparisons made by its close predicate *)
   close_refs : list string;            (* components whose close predicate is included in its own *)
   reloads : list string;               (* fields pushed into the running component when it is not closed *)
+  gexp : gexpr;                        (* creation condition (over the guard fields) *)
+  bound : list string;                 (* fields bound directly to a key of the constructor literal (Key: currentConf.F) *)
+  refbound : list string;              (* components bound directly to a key of the constructor literal (Key: p.comp) *)
 }.
 
 (* a loaded configuration: per field its value and, for pointer-typed fields, the address of the pointee *)
@@ -88,3 +95,96 @@ Definition loose (tbl : list row) (ptrs : list string) : list (string * string) 
           (filter (fun fk => negb (mem (fst fk) (params r)) ||
                              (match snd fk with CmpVal => mem (fst fk) ptrs | _ => false end)) (cmps r))
       ++ map (fun d => (comp r, d)) (filter (fun d => negb (mem d (refs r))) (close_refs r))) tbl.
+
+(* ---- the running components: closeResources, then createResources (reloadConf) ---- *)
+
+Fixpoint gfields (e : gexpr) : list string :=
+  match e with
+  | GTrue => []
+  | GAtom f _ => [f]
+  | GAnd a b | GOr a b => gfields a ++ gfields b
+  | GNot a => gfields a
+  end.
+
+(* a running instance: its identity, the value it holds for each configuration field it was built from (or that
+   was pushed into it since), and the identity of each component that was handed to its constructor (0 = nil) *)
+Record inst := { gen : Z; hval : string -> Z; href : string -> Z }.
+Definition state := string -> option inst.
+Definition gen_of (o : option inst) : Z := match o with Some i => gen i | None => 0%Z end.
+Definition upd (s : state) (c : string) (o : option inst) : state := fun x => if String.eqb x c then o else s x.
+Definition no_components : state := fun _ => None.
+
+Section Live.
+(* oracle: the truth of test t on a value of field f (EncryptionNo …, atLeastOneRecordDeleteAfter) is a function of the value *)
+Variable atomv : string -> string -> Z -> bool.
+
+Fixpoint geval (c : conf) (e : gexpr) : bool :=
+  match e with
+  | GTrue => true
+  | GAtom f t => atomv f t (val (c f))
+  | GAnd a b => geval c a && geval c b
+  | GOr a b => geval c a || geval c b
+  | GNot a => negb (geval c a)
+  end.
+Definition enabled (r : row) (c : conf) : bool := geval c (gexp r).
+
+(* createResources reads p.conf *after* reloadConf stored the new configuration: a component constructed at step n
+   is built from the new configuration and from the components standing in Core at that moment *)
+Definition fresh (n : Z) (new : conf) (s : state) : inst :=
+  {| gen := n; hval := fun f => val (new f); href := fun d => gen_of (s d) |}.
+
+Fixpoint create (n : Z) (new : conf) (rows : list row) (s : state) : state :=
+  match rows with
+  | [] => s
+  | r :: rs =>
+      create n new rs (match s (comp r) with
+                       | Some _ => s
+                       | None => if enabled r new then upd s (comp r) (Some (fresh n new s)) else s
+                       end)
+  end.
+
+(* `if !closeX && !reflect.DeepEqual(newConf.F, currentConf.F) { p.x.ReloadF(newConf.F) }` *)
+Definition push (old new : conf) (r : row) (i : inst) : inst :=
+  {| gen := gen i;
+     hval := fun f => if mem f (reloads r) && negb (Z.eqb (val (old f)) (val (new f))) then val (new f) else hval i f;
+     href := href i |}.
+
+Definition close_pass (tbl : list row) (ptrs : list string) (old new : conf) (s : state) : state :=
+  fun c => match find (fun r => String.eqb (comp r) c) tbl with
+           | None => s c
+           | Some r => match s c with
+                       | None => None
+                       | Some i => if closes_eval tbl ptrs old new c then None else Some (push old new r i)
+                       end
+           end.
+
+(* reloadConf number n *)
+Definition reload (n : Z) (tbl : list row) (ptrs : list string) (old new : conf) (s : state) : state :=
+  create n new tbl (close_pass tbl ptrs old new s).
+
+(* New: createResources(initial) on an empty Core *)
+Definition start (tbl : list row) (c0 : conf) : state := create 1 c0 tbl no_components.
+
+(* a history of successful reloads *)
+Fixpoint run (n : Z) (tbl : list row) (ptrs : list string) (cur : conf) (s : state) (hist : list conf) : state :=
+  match hist with
+  | [] => s
+  | c :: h => run (n + 1) tbl ptrs c (reload n tbl ptrs cur c s) h
+  end.
+End Live.
+
+(* ---- further decidable checks on a table ---- *)
+
+(* (component, field): a field of the creation condition that is not compared by the close predicate (a change of it
+   would leave the component present although disabled, or absent although enabled), or an atom outside `guard` *)
+Definition unguarded (tbl : list row) : list (string * string) :=
+  flat_map (fun r => map (fun f => (comp r, f))
+              (filter (fun f => negb (mem f (reach_fields (S (List.length tbl)) tbl (comp r)))) (guard r)
+               ++ filter (fun f => negb (mem f (guard r))) (gfields (gexp r)))) tbl.
+
+(* (component, held component): the held component is constructed later than (or is) the component holding it *)
+Fixpoint misordered (seen : list string) (rows : list row) : list (string * string) :=
+  match rows with
+  | [] => []
+  | r :: rs => map (fun d => (comp r, d)) (filter (fun d => negb (mem d seen)) (refs r)) ++ misordered (comp r :: seen) rs
+  end.
